@@ -3,3 +3,6 @@ import Gomjml.Props.C03
 #print axioms Gomjml.Props.C03.C03_wrapper_hand_over
 #print axioms Gomjml.Layout.C02_C03_all
 #print axioms Gomjml.Layout.wf_spec
+#print axioms Gomjml.Props.C03.C03_components
+#print axioms Gomjml.Props.C03.C03_social_loop
+#print axioms Gomjml.Props.C03.C03_navbar_loop
